@@ -149,3 +149,20 @@ func hdrBrief(h *rtp.Header) string {
 }
 
 func newRng(seed int64) *rand.Rand { return rand.New(rand.NewSource(seed)) }
+
+// rawRTP serialises header + payload (+ trailing padding when the header
+// carries a padding size) the way a transport does: header bytes followed by
+// the payload as given.  It does not go through rtp.Packet.Marshal.
+func rawRTP(h *rtp.Header, payload []byte) []byte {
+	hb, err := h.Marshal()
+	if err != nil {
+		panic(err)
+	}
+	out := append(hb, payload...)
+	if h.Padding && h.PaddingSize > 0 {
+		pad := make([]byte, h.PaddingSize)
+		pad[len(pad)-1] = h.PaddingSize
+		out = append(out, pad...)
+	}
+	return out
+}
